@@ -179,25 +179,40 @@ def _r153(ctx: Ctx) -> None:
 
     # inline standard errors
     def inline_se(mi, fn, target_txts, what, key):
-        found = 0
+        """The expression stored under a result key: `d['k'] = e`, a dictionary display `{'k': e}`, or
+        `d.update({'k': e})`; a plain local name is followed to its single definition."""
+        keys = {t.split("['")[1].rstrip("']") for t in target_txts}
+        defs = {}
+        for n_ in walk_no_nested(fn):
+            if isinstance(n_, ast.Assign) and len(n_.targets) == 1 and isinstance(n_.targets[0], ast.Name):
+                defs.setdefault(n_.targets[0].id, []).append(n_.value)
+        sites = []
         for n_ in ast.walk(fn):
             if isinstance(n_, ast.Assign) and isinstance(n_.targets[0], ast.Subscript) \
-                    and ast.unparse(n_.targets[0]).replace('"', "'") in target_txts:
-                if ast.unparse(n_.value) in ('np.nan', 'numpy.nan', "float('nan')"):
-                    continue
-                found += 1
-                try:
-                    src = to_sympy_src(n_.value)
-                except ValueError as e:
-                    raise AnalysisError('R15.3', site_of(mi, n_), f'{what}: not a closed expression: {e}')
-                names = sorted({x for x in _idents(src)})
-                pn = [x for x in names if 'p_est' in x or x.endswith('p_x') or x.endswith('p_z')]
-                nn = [x for x in names if 'n_runs' in x or 'n_results' in x]
-                if len(pn) != 1 or len(nn) != 1:
-                    raise AnalysisError('R15.3', site_of(mi, n_), f'{what}: operands not recognised in {src}')
-                items.append((A.add(src, f'sqrt({pn[0]}*(1-{pn[0]})/({nn[0]}+1))', names, {nn[0]: [1, 50]}),
-                              site_of(mi, n_), what + f' ({ast.unparse(n_.targets[0])})',
-                              key + '|' + ast.unparse(n_.targets[0]), src))
+                    and isinstance(n_.targets[0].slice, ast.Constant) and n_.targets[0].slice.value in keys:
+                sites.append((n_, n_.targets[0].slice.value, n_.value))
+            elif isinstance(n_, ast.Dict):
+                for k_, v_ in zip(n_.keys, n_.values):
+                    if isinstance(k_, ast.Constant) and k_.value in keys:
+                        sites.append((v_, k_.value, v_))
+        found = 0
+        for n_, kname, value in sites:
+            if isinstance(value, ast.Name) and len(defs.get(value.id, ())) == 1:
+                value = defs[value.id][0]
+            if ast.unparse(value) in ('np.nan', 'numpy.nan', "float('nan')"):
+                continue
+            found += 1
+            try:
+                src = to_sympy_src(value)
+            except ValueError as e:
+                raise AnalysisError('R15.3', site_of(mi, n_), f'{what}: not a closed expression: {e}')
+            names = sorted({x for x in _idents(src)})
+            pn = [x for x in names if 'p_est' in x or x.endswith('p_x') or x.endswith('p_z')]
+            nn = [x for x in names if 'n_runs' in x or 'n_results' in x]
+            if len(pn) != 1 or len(nn) != 1:
+                raise AnalysisError('R15.3', site_of(mi, n_), f'{what}: operands not recognised in {src}')
+            items.append((A.add(src, f'sqrt({pn[0]}*(1-{pn[0]})/({nn[0]}+1))', names, {nn[0]: [1, 50]}),
+                          site_of(mi, n_), what + f" ({kname})", key + '|' + kname, src))
         return found
     dci = m.cls('DirectSimulation')
     f1 = inline_se(dci.module, dci.methods['get_results'], {"simulation_data['p_se']"},
@@ -548,7 +563,17 @@ def _r155(ctx: Ctx) -> None:
     site = site_of(ami, fn)
     import itertools
     pats = [list(p) for p in itertools.product((0, 1), repeat=4)]          # rows [x0, x1, z0, z1]
-    arr = np.array(pats + pats[:5])
+    # the array as the pipeline hands it over: read_entry's dtype (uint8 today), and enough trials of every class
+    # (> 255) for a count accumulated in that dtype to wrap
+    rmi, rfn = m.func('panqec.analysis', 'read_entry')
+    dts = [kw.value for n in ast.walk(rfn) if isinstance(n, ast.Call) and ast.unparse(n.func) in ('np.array', 'np.asarray')
+           and n.args and 'effective_error' in ast.unparse(n.args[0]) for kw in n.keywords if kw.arg == 'dtype']
+    dtype = np.int64
+    if dts:
+        nm = ast.unparse(dts[0]).split('.')[-1].strip('\'"')
+        ctx.need(hasattr(np, nm), 'R15.5', site_of(rmi, rfn), f'read_entry: dtype {ast.unparse(dts[0])} of effective_error not recognised')
+        dtype = getattr(np, nm)
+    arr = np.array(pats * 80 + pats[:5], dtype=dtype)
     bits = {'X': (1, 0), 'Y': (1, 1), 'Z': (0, 1)}
 
     class H(_HNp):
@@ -579,7 +604,7 @@ def _r155(ctx: Ctx) -> None:
                 break
         if bad:
             break
-    ctx.ob('R15.5', site, 'get_single_qubit_error_rate: patterns and columns for k=2 over all 16 row patterns', bad is None,
+    ctx.ob('R15.5', site, f'get_single_qubit_error_rate: patterns and columns for k=2 over all 16 row patterns x 80, dtype {np.dtype(dtype).name}', bad is None,
            bad or '', key='get_single_qubit_error_rate|patterns')
     # get_results_df: evaluate the p_x / p_z expressions on a concrete effective-error table (k = 2)
     bci = m.cls('BatchSimulation')
@@ -646,7 +671,8 @@ def _r156(ctx: Ctx) -> None:
         return {'inputs': {'code': {'name': 'C', 'i': i}, 'error_rate': 0.1 * i},
                 'results': {'effective_error': [[0, 1]] * n, 'success': [True] * n, 'codespace': [True] * n,
                             'n_runs': n, 'wall_time': 1.0}}
-    data = [[rec(1, 2), rec(2, 3)], [rec(3, 1)], rec(4, 4)]
+    # a merged file of merged files: lists nested three deep next to plain records
+    data = [[[rec(1, 2)], rec(2, 3)], [[[rec(3, 1)]]], rec(4, 4)]
     it = Interp(m, _HNp())
     outs = guard('R15.6', rmi, rfn)(lambda: it.explore(lambda: it.call_closure(Closure(rfn, rmi), [data], {'results_file': 'F'}, rfn)))
     bad = None
@@ -660,7 +686,7 @@ def _r156(ctx: Ctx) -> None:
             bad = 'results_file not attached'
         elif [e['code']['i'] for e in es] != [1, 2, 3, 4]:
             bad = 'inputs not carried over in order'
-    ctx.ob('R15.6', site_of(rmi, rfn), 'read_entry flattens merged (nested) lists, one entry per record', bad is None, bad or '',
+    ctx.ob('R15.6', site_of(rmi, rfn), 'read_entry flattens merged lists of any nesting depth, one entry per record', bad is None, bad or '',
            key='read_entry|nested')
     cmi, mfn = m.func('panqec.cli', 'merge_results')
     saved = []
